@@ -368,7 +368,7 @@ def check_any(case, res=None):
 def plan(tier):
     if tier == "quick":
         return [{"kind": "q", "n": 450, "depth": 2}] * 14 + [{"kind": "i", "n": 3000}] * 2
-    return [{"kind": "q", "n": 12000, "depth": 2}] * 36 + [{"kind": "q", "n": 3000, "depth": 3}] * 8 + [{"kind": "i", "n": 60000}] * 4
+    return [{"kind": "q", "n": 8000, "depth": 2}] * 36 + [{"kind": "q", "n": 3000, "depth": 3}] * 8 + [{"kind": "i", "n": 60000}] * 4
 
 
 def run_shard(spec, seed, res, only_bucket=None):
